@@ -30,9 +30,10 @@ ASSUMPTIONS = ['"cleared caches" stands for "fresh process" inside a history; th
                'processes to validate that assumption',
                'the reference subprocesses run with socket.socket / create_connection / getaddrinfo patched to raise, so any network use would '
                'show as a different outcome']
-RULE = RULE + '; every call of the universe must end in a documented outcome (True, False, ValidationError, SchemaError) in the fresh process'
+RULE = RULE + '; the schema check also over the sample documents and over harness-made schemas on which Draft 3 / 4 / 6 / 7 disagree; ALL ordered pairs of calls whose keys differ only in the directory of a like-named file or only in the validator class; every call of the universe must end in a documented outcome (True, False, ValidationError, SchemaError) in the fresh process'
 
-VALIDATORS = ['Draft3Validator', 'Draft4Validator', 'Draft7Validator']
+VALIDATORS = ['Draft3Validator', 'Draft4Validator', 'Draft6Validator', 'Draft7Validator']
+SYNTH = os.path.join(VERIF, 'checks', 'c19_synth')      # harness-made schemas on which the validator classes disagree
 
 
 def universe():
@@ -42,7 +43,15 @@ def universe():
     docs = sorted('sample-jsons/' + f for f in os.listdir(os.path.join(REPO, 'sample-jsons')) if f.endswith('.json'))
     top = [s for s in schemas if not s.endswith('metaschema.json')]
     sv = [('sv', s, v, ef) for s in schemas + defs for v in VALIDATORS for ef in (False, True)]
+    # any JSON file can be handed to the schema check: the sample documents (several share their file name with a schema
+    # in another directory) and harness-made schemas on which the validator classes disagree (the bundled ones are judged
+    # alike by most classes, so answers confused between classes would not show on them)
+    sv += [('sv', d, v, ef) for d in docs for v in VALIDATORS for ef in (False, True)]
+    synth = sorted(os.path.join(SYNTH, f) for f in os.listdir(SYNTH) if f.endswith('.json'))
+    sv += [('sv', f, v, ef) for f in synth for v in VALIDATORS for ef in (False, True)]
     va = [('va', d, s, ef) for d in docs for s in top for ef in (False, True)]
+    va += [('va', os.path.join(SYNTH, 'doc_a.json'), f, ef) for f in synth for ef in (False, True)]
+    va += [('va', s_, d_, ef) for s_, d_ in ((schemas[0], docs[0]), (docs[0], docs[0]), (top[0], top[0])) for ef in (False, True)]
     # the definition files are schemas too ("every bundled schema"): two documents each keep the table small
     for s in defs + [x for x in schemas if x.endswith('metaschema.json')]:
         for d in (docs[0], docs[len(docs) // 2]):
@@ -351,6 +360,27 @@ def run(ctx):
         for v in by_schema.get(c[1], [])[:4]:
             hists.append([c, v])
             hists.append([v, c])
+    # confusable keys: two calls of one helper whose keys differ only in the directory of a like-named file or only in the
+    # validator class - ALL ordered pairs (a cache keyed too coarsely answers one with the other's result)
+    def _bn(p):
+        return p.replace('\\', '/').rsplit('/', 1)[-1]
+    groups = {}
+    for c in sv:
+        groups.setdefault(('sv', _bn(c[1])), []).append(c)
+    for c in va:
+        groups.setdefault(('va', _bn(c[1]), _bn(c[2])), []).append(c)
+    n_conf = 0
+    for g_ in groups.values():
+        if len(set(key_of(c) for c in g_)) < 2:
+            continue
+        if len(g_) > 40:
+            g_ = rng.sample(g_, 40)
+        for a in g_:
+            for b in g_:
+                if key_of(a) != key_of(b):
+                    hists.append([a, b])
+                    n_conf += 1
+    ctx.extra['confusable_key_pairs'] = n_conf
     # eviction histories: x, 21 other keys of the same function, x again (both expectations)
     for x in rng.sample(allcalls, 12 if not thorough else 60):
         pool = [c for c in (va if x[0] == 'va' else sv) if key_of(c) != key_of(x) and not c[3]]
